@@ -173,9 +173,30 @@ fn in_table(cp: u32, table: &[Codepoints]) -> bool {
     table.binary_search_by(|cps| cps.partial_cmp(&cp).unwrap()).is_ok()
 }
 
+/// The emitted file is a function of the UCD input only: the generation is run twice, once over an output file that
+/// already exists and is longer than anything the generators write, once with no output file present.  Different
+/// bytes are reported as an `Err` starting with "STALE".
+pub fn twice<F: Fn() -> Result<String, String>>(out: &Path, f: F) -> Result<String, String> {
+    std::fs::write(out, "/* content of an earlier build */\n".repeat(4096)).map_err(|e| e.to_string())?;
+    let over = f();
+    std::fs::remove_file(out).ok();
+    let fresh = f();
+    match (&over, &fresh) {
+        (Ok(a), Ok(b)) if a != b => Err(format!(
+            "STALE: the emitted file depends on the previous content of the output file ({} bytes over an existing file, {} bytes into a new one)",
+            a.len(), b.len())),
+        (Ok(_), Err(e)) | (Err(e), Ok(_)) => Err(format!("STALE: generation succeeds or fails depending on the previous output file: {}", e)),
+        _ => fresh,
+    }
+}
+
 pub fn run_generators(dir: &Path) -> Result<String, String> {
     let out = dir.join("tables.rs");
-    let mut gen = RustCodeGen::new(&out).map_err(|e| e.to_string())?;
+    twice(&out, || run_generators_once(dir, &out))
+}
+
+fn run_generators_once(dir: &Path, out: &Path) -> Result<String, String> {
+    let mut gen = RustCodeGen::new(out).map_err(|e| e.to_string())?;
     let mut ucd_gen = UcdFileGen::new(dir);
     let mut gc_gen = GeneralCategoryGen::new();
     gc_gen.add(Box::new(UcdTableGen::new("Lu", "T_GC")));
@@ -187,7 +208,7 @@ pub fn run_generators(dir: &Path) -> Result<String, String> {
     gen.add(Box::new(ucd_gen));
     gen.generate_code().map_err(|e| e.to_string())?;
     drop(gen);
-    std::fs::read_to_string(&out).map_err(|e| e.to_string())
+    std::fs::read_to_string(out).map_err(|e| e.to_string())
 }
 
 fn scratch() -> PathBuf {
@@ -225,7 +246,7 @@ pub fn replay_gen(doc: &Value, t: &mut Tally) {
             Ok(Err(e)) => {
                 // a First line at the very end of the file: silently ignoring it (the code today) and rejecting the
                 // file are both acceptable; nothing in the property decides
-                if doc["dangling"].as_bool().unwrap_or(false) {
+                if doc["dangling"].as_bool().unwrap_or(false) && !e.starts_with("STALE") {
                     continue;
                 }
                 t.mismatch(json!({"k": "gen", "base": base, "lines": doc["lines"], "actual": format!("generator error: {}", e)}));
@@ -317,6 +338,7 @@ pub fn replay_generr(doc: &Value, t: &mut Tally) {
         let got = match res {
             Err(_) => "panic".to_string(),
             Ok(Ok(_)) => "accepted".to_string(),
+            Ok(Err(e)) if e.starts_with("STALE") => e,
             Ok(Err(e)) => format!("error: {}", e),
         };
         if !got.starts_with("error: ") {
@@ -348,7 +370,7 @@ pub fn replay_prop(doc: &Value, t: &mut Tally) {
         drop(f);
         t.executions += 1;
         let out = dir.join("scripts.rs");
-        let res = std::panic::catch_unwind(|| -> Result<String, String> {
+        let res = std::panic::catch_unwind(|| twice(&out, || -> Result<String, String> {
             let mut gen = RustCodeGen::new(&out).map_err(|e| e.to_string())?;
             let mut ucd_gen = UcdFileGen::new(&dir);
             let mut sg: UnicodeGen<ucd_parse::Script> = UnicodeGen::new();
@@ -359,7 +381,7 @@ pub fn replay_prop(doc: &Value, t: &mut Tally) {
             gen.generate_code().map_err(|e| e.to_string())?;
             drop(gen);
             std::fs::read_to_string(&out).map_err(|e| e.to_string())
-        });
+        }));
         let src = match res {
             Err(_) => {
                 t.mismatch(json!({"k": "prop", "base": base, "lines": doc["lines"], "actual": "panic in the generators"}));
